@@ -1246,7 +1246,7 @@ def check_C06(rep, prog, tier):
     from .harness import race as RC
     from .interp import parallel_explore
     dl = tier_deadline(tier, 480, 3000)
-    bound = 2 if tier == 'quick' else 4
+    bound = int(os.environ.get('VERIF_C06_BOUND', 0)) or (3 if tier == 'quick' else 4)
     rep.bounds = {'actors': ['backup of a tree containing a file whose content equals a garbage block', 'gc (delete_bands with no bands)'],
                   'granularity': 'control changes hands only immediately before a storage operation',
                   'preemption_bound': bound, 'who_starts': 'solver-chosen', 'sizes': 'symbolic'}
